@@ -20,6 +20,7 @@ RULE = (
     "chain lengths, a repeated single-agent measurement, or a missing one, or a production-size evaluation. distinct = distinct case JSON."
     ' In a third of the evaluation cases every write request of save_h5 fails in turn with ENOSPC over an older archive (a save that returns normally must have saved).'
     " Effect cases use id arrays of every integer width (int8 .. int64, uint16) with ids scaled to the top of the width's range."
+    ' Chain labels may be 64-bit numbers more than 2**63 apart, stored chain after chain, permuted or draw by draw.'
 )
 ASSUMPTIONS = [
     "tolerance: 1e-10 relative to the metric's own value (the two variances additionally 1e-12 x the squared mean they are the spread around); 1e-10 / 1e-8 with a small absolute floor for effect arrays, synergy and the similarity matrix",
@@ -45,11 +46,19 @@ def _evaluation(draw):
     n_ch = draw(st.integers(1, min(3, t)))
     chains = sorted(draw(st.lists(st.integers(0, n_ch - 1), min_size=t, max_size=t)))
     # chain labels are arbitrary integers: 1-based, with gaps, negative; now and then the columns are not grouped by chain
-    relabel = draw(st.sampled_from([None, None, [1, 2, 3], [0, 2, 5], [-1, 0, 1], [-2, 3, 1], [7, -1, 4]]))
+    # ... or 64-bit fingerprints / seeds used as labels (differences between labels exceed the int64 range)
+    relabel = draw(st.sampled_from([None, None, [1, 2, 3], [0, 2, 5], [-1, 0, 1], [-2, 3, 1], [7, -1, 4], [-6 * 10**18, 0, 6 * 10**18], [-(2**63), -1, 2**63 - 1], [2**63 - 1, -(2**63), 5], [4 * 10**18, -5 * 10**18, 9 * 10**18]]))
     if relabel:
         chains = [relabel[c] for c in chains]
-    if draw(st.integers(0, 3)) == 0:
+    arrangement = draw(st.integers(0, 4))
+    if arrangement == 0:
         chains = draw(st.permutations(chains))
+    elif arrangement == 1 and n_ch >= 2:
+        # stored draw by draw: chains ascending inside each draw (round-robin), not chain after chain
+        by = {}
+        for c in chains:
+            by[c] = by.get(c, 0) + 1
+        chains = [c for r in range(max(by.values())) for c in sorted(by) if by[c] > r]
     obs = [draw(_f) for _ in range(e)]
     if draw(st.integers(0, 3)) == 0:
         # a near-perfect fit: every prediction within 1e-6 .. 1e-9 of its observation (errors far smaller than the values themselves)
@@ -112,6 +121,10 @@ def strategy(tier):
 
 
 def exhaustive(tier):
+    # chains labelled with 64-bit numbers (fingerprints, seeds), stored draw by draw
+    for labels in ([-6 * 10**18, 0, 6 * 10**18], [-(2**63), -1, 2**63 - 1], [4 * 10**18, -5 * 10**18, 9 * 10**18], [-(2**63), 2**63 - 1], [2**62, -(2**62) - 5, 3, -7]):
+        for t in (len(labels) + 1, 2 * len(labels) + 1, 9):
+            yield {"kind": "evaluation", "pred": [[0.1 * i + 0.05 * j * j + 0.01 * ((i * j) % 3) for j in range(t)] for i in range(4)], "obs": [0.2, 0.3, 0.5, 0.1], "chains": [sorted(labels)[j % len(labels)] for j in range(t)], "names": ["a", "b", "c", "d"]}
     for e, t in [(700, 300), (1025, 64), (65537, 1), (3, 65537), (300007, 64)] + ([(4100, 257), (70001, 16), (2**24 // 3 + 5, 3), (2**25 // 7 + 3, 7)] if tier != "quick" else []):
         yield {"kind": "evaluation_big", "E": e, "T": t, "n_chains": 3 if t >= 3 else 1, "seed": e + t}
 
